@@ -435,6 +435,7 @@ def generate(vc_path, out_dir, canary=False, lenient=False):
         return files[rel]
     rewrites_log = []
     lost_hints = [] if lenient else None
+    trait_sig_obl = {}
     obligations = []
     functions = []
     dropped = []
@@ -642,7 +643,10 @@ def generate(vc_path, out_dir, canary=False, lenient=False):
                 # a trait method declaration: nothing to drop, the contract is simply declared
                 fs.attrs = []
                 fs.bodyless = False
-            apply_fn(fs, it.text, unit_id, rewrites_log, out, where, lenient=lost_hints)
+            aobl, _ = apply_fn(fs, it.text, unit_id, rewrites_log, out, where, lenient=lost_hints)
+            if it.body_open is None and block_directive is not None and block_directive.name == "trait":
+                # contract of a trait method: an impl of the trait in this unit inherits it and has to discharge it
+                trait_sig_obl[oname] = [o for o in aobl if ".sig." in o]
             functions.append({"fn": oname, "path": where, "sha256": hashlib.sha256(it.text.encode()).hexdigest()[:16],
                               "assumed": True, "proved_in": ou})
         elif d.name == "fn":
@@ -702,6 +706,11 @@ def generate(vc_path, out_dir, canary=False, lenient=False):
             where = "%s:%d" % (rel, line)
             obl, rewritten = apply_fn(fs, it.text, unit_id, rewrites_log, out, where, canary=canary, lenient=lost_hints)
             obligations += obl
+            if block is not None and block_directive is not None and block_directive.name == "impl" and not fs.bodyless \
+                    and name in trait_sig_obl and not any(".sig." in o for o in obl):
+                # a verified trait-method implementation without a contract of its own: the inherited postconditions
+                # are its obligations (the verifier reports them at the trait declaration)
+                obligations += [o for o in trait_sig_obl[name] if o not in obligations]
             erasure.append(("fn " + name, rewritten if not fs.bodyless else None))
             functions.append({"fn": name, "path": where,
                               "sha256": hashlib.sha256(it.text.encode()).hexdigest()[:16],
